@@ -310,6 +310,7 @@ func (in *inliner) normalise(o *types.Func) {
 			// a mode argument that arrived as a constant decides branches of the expanded body (if isDelta { … })
 			fd.Body = in.pruneConst(fd.Body)
 		}
+
 		// function literals inside (per-request closures, goroutine bodies) are normalised in place, innermost last
 		for round := 0; round < 3; round++ {
 			var lits []*ast.FuncLit
@@ -329,6 +330,9 @@ func (in *inliner) normalise(o *types.Func) {
 					l.Body = in.pruneConst(in.block(nb, o))
 				}
 			}
+		}
+		if in.count > before {
+			in.dropDeadDefs(fd.Body)
 		}
 		if d := os.Getenv("VERIF_DUMPNORM"); d != "" && d == fd.Name.Name {
 			_ = printer.Fprint(os.Stderr, token.NewFileSet(), fd)
@@ -1667,13 +1671,27 @@ func (in *inliner) methodValues(e ast.Expr, within *types.Func) (ast.Expr, bool)
 		if !isID {
 			// T{f: v, …}.m (or (&T{…}).m): the receiver is a fresh value known field by field; the body may only read those fields,
 			// and each given value denotes the same thing whenever it is evaluated (&local, a constant, a variable assigned once)
-			if lit := in.litMethodValue(sel, fd, sig, wfd); lit != nil {
+			if lit := in.litMethodValue(sel, sel.X, fd, sig, wfd); lit != nil {
 				repl[sel] = lit
 				in.count++
 			}
 			continue
 		}
 		rv, isV := in.info.Uses[id].(*types.Var)
+		// a struct-valued local that is defined once by a literal and never touched again stands for that literal
+		if isV && !rv.IsField() {
+			if _, isPtr := rv.Type().Underlying().(*types.Pointer); !isPtr {
+				if _, wantPtr := sig.Recv().Type().(*types.Pointer); !wantPtr {
+					if def := in.soleLiteralDef(rv, wfd); def != nil {
+						if lit := in.litMethodValue(sel, def, fd, sig, wfd); lit != nil {
+							repl[sel] = lit
+							in.count++
+						}
+					}
+					continue
+				}
+			}
+		}
 		if !isV || rv.IsField() || assignedIn(in.info, fd.Body, sig.Recv()) {
 			continue
 		}
@@ -1730,8 +1748,150 @@ func (in *inliner) methodValues(e ast.Expr, within *types.Func) (ast.Expr, bool)
 }
 
 // litMethodValue builds the closure for T{f: v}.m: m's body with recv.f replaced by v.
-func (in *inliner) litMethodValue(sel *ast.SelectorExpr, fd *ast.FuncDecl, sig *types.Signature, wfd *ast.FuncDecl) *ast.FuncLit {
-	x := unparen(sel.X)
+// dropDeadDefs removes `v := T{…}` (a literal of plain operands) when nothing reads v any more: the compiler rejects unused
+// variables, so such a definition is what is left of a value whose only use was expanded away.
+func (in *inliner) dropDeadDefs(body *ast.BlockStmt) {
+	uses := map[types.Object]int{}
+	ast.Inspect(body, func(n ast.Node) bool {
+		if id, ok := n.(*ast.Ident); ok {
+			if o := in.info.Uses[id]; o != nil {
+				uses[o]++
+			}
+		}
+		return true
+	})
+	var pure func(e ast.Expr) bool
+	pure = func(e ast.Expr) bool {
+		switch x := unparen(e).(type) {
+		case *ast.CompositeLit:
+			for _, el := range x.Elts {
+				if kv, ok := el.(*ast.KeyValueExpr); ok {
+					el = kv.Value
+				}
+				if !pure(el) {
+					return false
+				}
+			}
+			return true
+		case *ast.UnaryExpr:
+			return x.Op == token.AND && pure(x.X)
+		case *ast.Ident, *ast.BasicLit:
+			return true
+		case *ast.SelectorExpr:
+			return pure(x.X)
+		}
+		return false
+	}
+	dead := func(st ast.Stmt) bool {
+		as, ok := st.(*ast.AssignStmt)
+		if !ok || as.Tok != token.DEFINE || len(as.Lhs) != 1 || len(as.Rhs) != 1 {
+			return false
+		}
+		id, isID := as.Lhs[0].(*ast.Ident)
+		if !isID {
+			return false
+		}
+		o := in.info.Defs[id]
+		if o == nil || uses[o] > 0 {
+			return false
+		}
+		_, isCL := unparen(as.Rhs[0]).(*ast.CompositeLit)
+		return isCL && pure(as.Rhs[0])
+	}
+	filter := func(list []ast.Stmt) []ast.Stmt {
+		out := list[:0:0]
+		for _, st := range list {
+			if !dead(st) {
+				out = append(out, st)
+			}
+		}
+		return out
+	}
+	ast.Inspect(body, func(n ast.Node) bool {
+		switch x := n.(type) {
+		case *ast.BlockStmt:
+			x.List = filter(x.List)
+		case *ast.CaseClause:
+			x.Body = filter(x.Body)
+		case *ast.CommClause:
+			x.Body = filter(x.Body)
+		}
+		return true
+	})
+}
+
+// soleLiteralDef: v := T{…} as the only thing that ever writes v (no other assignment, no store into a field, no &v, no
+// method with a pointer receiver called on it).
+func (in *inliner) soleLiteralDef(v *types.Var, wfd *ast.FuncDecl) ast.Expr {
+	var def ast.Expr
+	n := 0
+	ast.Inspect(wfd.Body, func(m ast.Node) bool {
+		switch s := m.(type) {
+		case *ast.AssignStmt:
+			for i, l := range s.Lhs {
+				root := l
+				for {
+					if se, ok := unparen(root).(*ast.SelectorExpr); ok {
+						root = se.X
+						continue
+					}
+					if ie, ok := unparen(root).(*ast.IndexExpr); ok {
+						root = ie.X
+						continue
+					}
+					break
+				}
+				if !sameVar(in.info, root, v) {
+					continue
+				}
+				n++
+				if root == l && s.Tok == token.DEFINE && len(s.Lhs) == len(s.Rhs) {
+					def = s.Rhs[i]
+				} else {
+					n++
+				}
+			}
+		case *ast.IncDecStmt:
+			if sameVar(in.info, s.X, v) {
+				n += 2
+			}
+		case *ast.UnaryExpr:
+			if s.Op == token.AND {
+				root := s.X
+				for {
+					if se, ok := unparen(root).(*ast.SelectorExpr); ok {
+						root = se.X
+						continue
+					}
+					break
+				}
+				if sameVar(in.info, root, v) {
+					n += 2
+				}
+			}
+		case *ast.SelectorExpr:
+			// v.m() with a pointer receiver takes &v implicitly
+			if sel := in.info.Selections[s]; sel != nil && sel.Kind() == types.MethodVal && sameVar(in.info, s.X, v) {
+				if f, isF := sel.Obj().(*types.Func); isF {
+					if _, ptr := f.Type().(*types.Signature).Recv().Type().(*types.Pointer); ptr {
+						n += 2
+					}
+				}
+			}
+		}
+		return true
+	})
+	if n != 1 || def == nil {
+		return nil
+	}
+	if _, isCL := unparen(def).(*ast.CompositeLit); !isCL {
+		return nil
+	}
+	return def
+}
+
+func (in *inliner) litMethodValue(sel *ast.SelectorExpr, recvExpr ast.Expr, fd *ast.FuncDecl, sig *types.Signature, wfd *ast.FuncDecl) *ast.FuncLit {
+	x := unparen(recvExpr)
 	if u, isU := x.(*ast.UnaryExpr); isU && u.Op == token.AND {
 		x = unparen(u.X)
 	}
@@ -1767,6 +1927,21 @@ func (in *inliner) litMethodValue(sel *ast.SelectorExpr, fd *ast.FuncDecl, sig *
 			}
 			inner = nil
 		}
+		// x.f.g on a struct-valued variable (no pointer on the way) is as stable as x, provided nothing stores through x
+		viaFields := false
+		for inner != nil {
+			se, isSel := unparen(inner).(*ast.SelectorExpr)
+			if !isSel {
+				break
+			}
+			s := in.info.Selections[se]
+			if s == nil || s.Kind() != types.FieldVal || s.Indirect() {
+				inner = nil
+				break
+			}
+			inner = unparen(se.X)
+			viaFields = true
+		}
 		if id, isID := inner.(*ast.Ident); isID && !stable {
 			if lv, isV := in.info.Uses[id].(*types.Var); isV && !lv.IsField() {
 				n := 0
@@ -1774,6 +1949,17 @@ func (in *inliner) litMethodValue(sel *ast.SelectorExpr, fd *ast.FuncDecl, sig *
 					switch s := m.(type) {
 					case *ast.AssignStmt:
 						for _, l := range s.Lhs {
+							root := l
+							for viaFields {
+								if se, ok := unparen(root).(*ast.SelectorExpr); ok {
+									root = se.X
+									if sameVar(in.info, root, lv) {
+										n += 2 // a store into a field of it
+									}
+									continue
+								}
+								break
+							}
 							if sameVar(in.info, l, lv) {
 								n++
 							}
